@@ -1448,6 +1448,10 @@ func genCase(t *rapid.T) Case {
 	if ml := mapLists(sscope{}, g.d, g.roots); len(ml) > 0 && g.int(0, 1, "toplist") == 0 {
 		c.Prog = append(c.Prog, listOf(g.id("q"), sscope{}, g.d, g.pick(ml, "listitems"), rapid.Bool().Draw(t, "destr"), g.int(0, 19, "salt"), g.roots))
 	}
+	if g.int(0, 2, "after") == 0 {
+		c.After = g.pick([]string{"fresh", "same"}, "afterhow")
+		c.FailAt = g.int(1, 6, "failat")
+	}
 	c.Tpl = buildTemplate(c)
 	return c
 }
@@ -1456,6 +1460,9 @@ func genCase(t *rapid.T) Case {
 
 func classify(c Case) (bool, []string) {
 	cls := map[string]bool{"root=" + c.Data.Root: true, "api=" + c.API: true}
+	if c.After != "" {
+		cls[fmt.Sprintf("after-failure:%s-engine,fail-at-%d", c.After, c.FailAt)] = true
+	}
 	maxDepth := 0
 	shadow := false
 	var walk func(ns []Node, depth int, outer []string)
